@@ -376,7 +376,7 @@ class ClosedShellScf:
         out = {}
         W1 = None
         for unres in (False, True):
-            at = Atoms(["Li", "H"], [[0.2, 0.1, 0.3], [0.4, 0.2, 3.1]], ecut=4, a=[[6.0, 0.3, 0.1], [0.2, 6.5, 0.4], [0.5, 0.1, 7.0]], unrestricted=unres)
+            at = Atoms(["Si", "C"], [[0.2, 0.1, 0.3], [0.4, 0.2, 3.1]], ecut=4, a=[[6.0, 0.3, 0.1], [0.2, 6.5, 0.4], [0.5, 0.1, 7.0]], unrestricted=unres)  # both species carry non-local projectors
             at.s = [11, 11, 13]
             at.set_k([[0.0, 0.0, 0.0], [0.2, 0.1, 0.05]], [0.4, 0.6])
             scf = SCF(at, xc=xc, verbose="critical")
@@ -411,7 +411,7 @@ class ClosedShellScf:
             if w > 1e-9:
                 return Result(REFUTED, backend="native", witness=dict(xc=xc, seed=seed), replayed=True, replay_info=info,
                               detail=f"closed-shell state, xc={xc}: spin-polarised path differs from the spin-paired path (energies {info['energy_diffs']}, gradient {info['gradient_rel_diff']:.2e})")
-        return Result(BOUNDED_OK, backend="native", detail=f"bounded: LiH, two weighted k-points, ten exchange / correlation pairs: energies equal and gradient halved to {worst:.1e}")
+        return Result(BOUNDED_OK, backend="native", detail=f"bounded: SiC (non-local projectors of two species), two weighted k-points, ten exchange / correlation pairs: energies equal and gradient halved to {worst:.1e}")
 
     def replay(self, wit):
         w, info = self.case(wit["xc"], wit["seed"])
